@@ -114,3 +114,175 @@ Section Init.
       split; [now apply Himp | eapply Forall_impl; eauto].
   Qed.
 End Init.
+
+(* ------------------------------------------------------------------ (b) the regenerated tables *)
+Lemma list_eqb_eq : forall A (eqb : A -> A -> bool), (forall x y, eqb x y = true -> x = y) ->
+    forall l1 l2, list_eqb eqb l1 l2 = true -> l1 = l2.
+Proof.
+  intros A eqb H. induction l1 as [|x l1 IH]; destruct l2 as [|y l2]; simpl; intro E; try discriminate; auto.
+  apply andb_true_iff in E. destruct E as [E1 E2]. f_equal; auto.
+Qed.
+
+Lemma lc_eqb_eq : forall a b, lc_eqb a b = true -> a = b.
+Proof.
+  intros [a1 a2 a3 a4] [b1 b2 b3 b4] H. unfold lc_eqb in H. simpl in H.
+  repeat (apply andb_true_iff in H; destruct H as [H ?]).
+  apply Z.eqb_eq in H, H0, H1, H2. now subst.
+Qed.
+
+Lemma imm_eqb_eq : forall a b, imm_eqb a b = true -> a = b.
+Proof.
+  intros [a1 a2 a3] [b1 b2 b3] H. unfold imm_eqb in H. simpl in H.
+  repeat (apply andb_true_iff in H; destruct H as [H ?]).
+  apply N.eqb_eq in H, H1. apply (list_eqb_eq _ _ lc_eqb_eq) in H0. now subst.
+Qed.
+
+Lemma ck_N_inj : forall a b, ck_N a = ck_N b -> a = b.
+Proof. intros a b H; destruct a; destruct b; simpl in H; try reflexivity; discriminate. Qed.
+Lemma ok_N_inj : forall a b, ok_N a = ok_N b -> a = b.
+Proof. intros a b H; destruct a; destruct b; simpl in H; try reflexivity; discriminate. Qed.
+
+Lemma spec_eqb_eq : forall a b, spec_eqb a b = true -> a = b.
+Proof.
+  intros [a1 a2 a3 a4 a5 a6 a7 a8 a9 a10 a11 a12 a13 a14] [b1 b2 b3 b4 b5 b6 b7 b8 b9 b10 b11 b12 b13 b14] H.
+  unfold spec_eqb in H. simpl in H.
+  repeat (apply andb_true_iff in H; destruct H as [H ?]).
+  apply N.eqb_eq in H, H12, H10, H9, H8.
+  apply String.eqb_eq in H11.
+  apply (list_eqb_eq _ _ (fun x y => proj1 (N.eqb_eq x y))) in H7, H6.
+  apply Bool.eqb_prop in H5, H0.
+  apply lc_eqb_eq in H4. apply (list_eqb_eq _ _ imm_eqb_eq) in H3.
+  apply N.eqb_eq in H2, H1. apply ck_N_inj in H2. apply ok_N_inj in H1.
+  now subst.
+Qed.
+
+Lemma entry_eqb_eq : forall a b, entry_eqb a b = true -> a = b.
+Proof.
+  intros [a1 a2] [b1 b2] H. unfold entry_eqb in H. simpl in H.
+  apply andb_true_iff in H. destruct H as [H1 H2].
+  apply spec_eqb_eq in H1. apply (list_eqb_eq _ _ spec_eqb_eq) in H2. now subst.
+Qed.
+
+Lemma tables_match_init_true :
+  forallb (fun v => forallb (tables_match_at v) all_bytes) all_versions = true.
+Proof. vm_compute. reflexivity. Qed.
+
+Lemma in_all_bytes : forall b, (b < 256)%N -> In b all_bytes.
+Proof.
+  intros b H. unfold all_bytes. rewrite <- (N2Nat.id b). apply in_map. apply in_seq. lia.
+Qed.
+Lemma in_all_versions : forall v, (v <= logic_version)%N -> In v all_versions.
+Proof.
+  intros v H. unfold all_versions. rewrite <- (N2Nat.id v). apply in_map. apply in_seq. lia.
+Qed.
+
+(* the dispatch table of the running code is the one the model of init() builds from OpSpecs *)
+Lemma gen_tbl_is_init : forall v op, (v <= logic_version)%N -> (op < 256)%N ->
+    gen_tbl v op = tab_get (init_table src_specs v) op.
+Proof.
+  intros v op Hv Hop.
+  pose proof (proj1 (forallb_forall _ _) tables_match_init_true v (in_all_versions v Hv)) as H1.
+  pose proof (proj1 (forallb_forall _ _) H1 op (in_all_bytes op Hop)) as H2.
+  apply entry_eqb_eq. exact H2.
+Qed.
+
+Lemma get_op_spec_cases : forall tbl v prog pc,
+    get_op_spec tbl v prog pc = fst (tbl v (byte_at prog pc)) \/
+    (In (get_op_spec tbl v prog pc) (snd (tbl v (byte_at prog pc))) /\ os_hasop (get_op_spec tbl v prog pc) = true).
+Proof.
+  intros tbl v prog pc. unfold get_op_spec.
+  destruct (tbl v (byte_at prog pc)) as [spec subs]. simpl.
+  destruct subs as [|s0 r]; [now left|].
+  destruct (Nat.ltb (S pc) (List.length prog)); [|now left].
+  destruct (nth_error (s0 :: r) (N.to_nat (byte_at prog (S pc)))) as [s|] eqn:E; [|now left].
+  destruct (os_hasop s) eqn:Eh; [|now left].
+  right. split; [eapply nth_error_In; eauto | exact Eh].
+Qed.
+
+(* C34: whatever GetOpSpec returns for a version-v program -- an opcode or a sub-opcode -- was
+   introduced at or before v and is an entry of OpSpecs *)
+Theorem dispatch_respects_version_gen : forall v prog pc,
+    (v <= logic_version)%N -> (byte_at prog pc < 256)%N ->
+    let s := get_op_spec gen_tbl v prog pc in
+    os_hasop s = true ->
+    (os_version s <= v)%N /\
+    (if N.eqb v 0 then exists s1, In s1 src_specs /\ os_version s1 = 1%N /\ s = with_version s1 0
+     else In s src_specs).
+Proof.
+  intros v prog pc Hv Hb s Hop.
+  destruct (init_respects_version src_specs v (byte_at prog pc)) as [H1 H2].
+  rewrite <- (gen_tbl_is_init v _ Hv Hb) in H1, H2.
+  assert (origin src_specs v s) as Ho.
+  { destruct (get_op_spec_cases gen_tbl v prog pc) as [Hc|[Hc _]]; fold s in Hc.
+    - now rewrite Hc.
+    - rewrite Forall_forall in H2. now apply H2. }
+  destruct Ho as [Hz|Ho]; [rewrite Hz in Hop; discriminate | exact Ho].
+Qed.
+
+(* ---- everything GetOpSpec can return is a pool element *)
+Lemma pool_get_in : forall i, pool_get i = zero_spec \/ In (pool_get i) spec_pool.
+Proof.
+  intro i. unfold pool_get. destruct (nth_in_or_default (N.to_nat i) spec_pool zero_spec); auto.
+Qed.
+
+Lemma gen_spec_in_pool : forall v prog pc,
+    get_op_spec gen_tbl v prog pc = zero_spec \/ In (get_op_spec gen_tbl v prog pc) spec_pool.
+Proof.
+  intros v prog pc.
+  destruct (get_op_spec_cases gen_tbl v prog pc) as [Hc|[Hc _]]; rewrite Hc || idtac.
+  - unfold gen_tbl. destruct (find _ (version_table v)) as [[o [i subs]]|]; simpl; [apply pool_get_in | now left].
+  - revert Hc. unfold gen_tbl. destruct (find _ (version_table v)) as [[o [i subs]]|]; simpl; [|intros []].
+    intro Hin. apply in_map_iff in Hin. destruct Hin as (j & Hj & _). rewrite <- Hj. apply pool_get_in.
+Qed.
+
+Lemma pool_forall : forall (p : opspec -> bool),
+    forallb (fun s => implb (os_hasop s) (p s)) spec_pool = true ->
+    forall v prog pc, os_hasop (get_op_spec gen_tbl v prog pc) = true -> p (get_op_spec gen_tbl v prog pc) = true.
+Proof.
+  intros p H v prog pc Hop. rewrite forallb_forall in H.
+  destruct (gen_spec_in_pool v prog pc) as [Hz|Hin]; [rewrite Hz in Hop; discriminate|].
+  specialize (H _ Hin). rewrite Hop in H. exact H.
+Qed.
+
+(* the op-function / check-function pairing the agreement proof needs *)
+Lemma kinds_ok_pool : forallb (fun s => implb (os_hasop s) (kinds_ok s)) spec_pool = true.
+Proof. vm_compute. reflexivity. Qed.
+
+Lemma gen_kinds_ok : forall v prog pc,
+    os_hasop (get_op_spec gen_tbl v prog pc) = true -> kinds_ok (get_op_spec gen_tbl v prog pc) = true.
+Proof. exact (pool_forall kinds_ok kinds_ok_pool). Qed.
+
+(* ---- signature mode cannot reach ledger-touching opcodes *)
+Lemma sig_excludes_state_true : sig_excludes_state = true.
+Proof. vm_compute. reflexivity. Qed.
+
+Lemma gen_sig_excludes : forall v prog pc,
+    os_hasop (get_op_spec gen_tbl v prog pc) = true ->
+    touches_ledger (os_name (get_op_spec gen_tbl v prog pc)) = true ->
+    N.land mode_sig (os_modes (get_op_spec gen_tbl v prog pc)) = 0%N.
+Proof.
+  intros v prog pc Hop Ht.
+  pose proof sig_excludes_state_true as H. unfold sig_excludes_state in H.
+  apply andb_true_iff in H. destruct H as [H _]. apply andb_true_iff in H. destruct H as [H _].
+  rewrite forallb_forall in H.
+  destruct (gen_spec_in_pool v prog pc) as [Hz|Hin]; [rewrite Hz in Hop; discriminate|].
+  specialize (H _ Hin). rewrite Hop, Ht in H. simpl in H. apply N.eqb_eq in H.
+  rewrite N.land_comm. exact H.
+Qed.
+
+(* ---- costs, fields, constants *)
+Lemma costs_ok_true : costs_ok = true.
+Proof. vm_compute. reflexivity. Qed.
+Lemma fields_wf_true : fields_wf = true.
+Proof. vm_compute. reflexivity. Qed.
+Lemma consts_ok_true : consts_ok = true.
+Proof. vm_compute. reflexivity. Qed.
+
+Lemma gen_min_cost : forall v prog pc,
+    os_hasop (get_op_spec gen_tbl v prog pc) = true ->
+    min_cost_ok (get_op_spec gen_tbl v prog pc) = true /\ cost_safe (get_op_spec gen_tbl v prog pc) = true.
+Proof.
+  intros v prog pc Hop.
+  pose proof (pool_forall (fun s => min_cost_ok s && cost_safe s) costs_ok_true v prog pc Hop) as H.
+  now apply andb_true_iff in H.
+Qed.
